@@ -54,6 +54,17 @@ def _task(args):
         if _SRC is None:
             _SRC = Source()
         ex = Exec(_SRC, qual)
+        if chunk == 0:
+            # write-based frame check on the AST (speaks even where symbolic execution stops early)
+            from . import maywrite
+            from .symex import frame_tags
+            for comp, line in sorted(maywrite.may_write(ex.fdef, ex.con.cls).items()):
+                ok = comp in ex.con.modifies
+                nm = "%s#frame.maywrite.%s" % (qual, comp)
+                out["results"].append({
+                    "name": nm, "norm": norm(nm), "path": -1, "status": "discharged" if ok else "refuted", "backend": "syntactic",
+                    "secs": 0.0, "tags": frame_tags(comp, ex.con.tags), "kind": "frame", "decisions": [],
+                    "detail": "" if ok else "line %d writes %s, which the contract's modifies clause does not allow" % (line, comp)})
         paths = ex.explore()
         if ex.unsupported:
             out["unsupported"] = "; ".join(sorted(set(ex.unsupported)))[:600]
